@@ -877,6 +877,15 @@ def serve(conn) -> None:
         root = env.get("root")
         if root and os.path.isdir(root) and os.getcwd() != root:
             os.chdir(root)  # every request starts in the run directory
+        if root and os.path.isdir(root):
+            # temporary files belong to the simulated disk of the run
+            import tempfile  # noqa: PLC0415
+
+            tmp = os.path.join(root, "tmp")
+            if not os.path.isdir(tmp):
+                shims.REAL_MKDIR(tmp)
+            os.environ["TMPDIR"] = tmp
+            tempfile.tempdir = None
         shims.arm_audio(env.get("audio_fault"))
         try:
             handler = HANDLERS[request["op"]]
